@@ -13,6 +13,8 @@ import Mathlib.Data.Rat.Floor
 import Mathlib.Algebra.Order.AbsoluteValue.Basic
 
 namespace FDA.Arith
+
+theorem omap_id {γ : Type} (o : Option γ) : Option.map id o = o := by cases o <;> rfl
 open FDA.Dict FDA.Select
 
 variable {α β γ δ : Type}
